@@ -19,21 +19,69 @@ import scipy.sparse as sps
 
 from harness.common import frac, err_kind, deep_compare
 
-DISABLED = True
 PID = "C17"
-THEOREMS = [
-    "PorepyVerif.C17.upwind_selects_upstream",
-]
+THEOREMS = ["PorepyVerif.C17." + t for t in (
+    "upwind_selects_upstream",
+    "upwind_boundary_rows_neumann",
+    "sgnDiv_boundary",
+    "upwind_boundary_rows_dirichlet",
+    "dirDiag_support",
+    "boundary_data_only_on_boundary_rows",
+    "upwind_boundary_rows",
+    "upVal_eq_matvec",
+    "transport_balance",
+    "transport_conserves",
+    "transport_conserves_iter",
+    "transport_maximum_principle_inflow",
+    "transport_maximum_principle",
+    "transport_maximum_principle_iter",
+    "kron_entry",
+    "kron_components",
+    "kron_upwind_entry",
+)]
 LEAN_MODULES = ["PorepyVerif.C17.Props"]
 AUDIT = "PorepyVerif/C17/Audit.lean"
 DRIVER = "PorepyVerif/C17/Driver.lean"
-N = {"quick": 260, "thorough": 5000}
-RULE = ""
-TRUSTED = []
-EXPLANATION = ""
-ASSUMPTIONS = []
+N = {"quick": 600, "thorough": 12000}
+RULE = ("one grid per case, built by the real code: CartGrid 1/2/3-d, StructuredTriangleGrid, StructuredTetrahedralGrid, the 2-d subdomain of "
+        "pp.meshing.cart_grid with one fracture (split faces = boundary faces inside the domain), or a raw signed incidence handed to pp.Grid "
+        "(random cell graph, both normal orientations on boundary faces; 15% ill-formed: a face with three cells). Scenarios: 'matrices' = random "
+        "dyadic flux with 25% zeros and mixed signs (sometimes one-signed), boundary conditions through the BoundaryCondition constructor (random "
+        "dir/neu per boundary face, all-dir, all-neu, 12% with Robin faces -> ValueError when flux enters there), the code's default (no 'bc'), or "
+        "flags written directly (interior faces flagged, both flags, no flag); 'noflow' = all-Neumann zero data with any flux; 'divfree' = sum of "
+        "random circulations along cycles of the cell graph (zero on the boundary), time step and volumes chosen so that dt*outflow <= V with "
+        "equality in many cells; 'through' = circulations plus paths entering and leaving through Dirichlet boundary faces. 1-3 components, "
+        "1-5 explicit steps with dyadic cell values / boundary values. non-trivial = at least 2 cells and a nonzero flux; distinct = distinct cases")
+TRUSTED = [
+    "modelled, not verified: scipy.sparse glue (sps.find enumeration order, coo->csr conversion, sps.kron, np.delete, matrix products in "
+    "assemble_matrix_rhs), numpy fancy assignment in cell_faces_as_dense (last write wins), np.sign on binary64 (NaN / -0.0 fluxes are not generated)",
+    "the boundary flags is_dir / is_neu are inputs of the model: they are read from the real BoundaryCondition object (its constructor belongs to C39); "
+    "for the code's default branch (no 'bc' given) the harness derives them from the grid tags (Dirichlet on domain_boundary_faces, Neumann on the "
+    "other tagged boundary faces)",
+    "the explicit transport step is not porepy code: it is composed in the harness exactly as porepy's models compose the advective flux "
+    "(flux*(upwind@c) + bound_transport_dir@(flux*bc) + bound_transport_neu@bc, then sd.divergence) from the REAL matrices in exact rationals",
+    "a one-face 'grid' (np.squeeze in discretize returns a 0-d array -> IndexError) is not a grid of any dimension >= 1 and is not generated; "
+    "0-d grids take the trivial shortcut branch of discretize and are not modelled",
+]
+EXPLANATION = ("FULL: model = Upwind.discretize branch for branch over the stored (face, cell, sign) entries of cell_faces (cf_dense rows, sign test with "
+               "zero counted as positive, Neumann / Dirichlet-inflow row deletion, column -1 -> ValueError, sgn_div, Kronecker expansion), plus the legacy "
+               "assemble_matrix_rhs. Theorems for EVERY well-formed topology (any size/dimension), flux field, flag assignment: interior rows select exactly "
+               "the cell the flux leaves (zero flux: the positive-side cell); Neumann and Dirichlet-inflow rows are empty, Dirichlet-outflow rows select the "
+               "interior cell; boundary data enters only on deleted rows with the coded signs; total amount changes by -dt*(boundary flux) for ANY data "
+               "(transport_balance) hence is conserved under no-flow boundaries for any flux and any number of steps; divergence-free flux + CFL => cell values "
+               "stay in the initial bounds (no-flow statement of the property, and its generalisation to Dirichlet in/outflow with bounded inflow data), for any "
+               "number of steps; Kronecker expansion of any sparse matrix has block-diagonal-per-component entries and acts component-wise. Correspondence "
+               "compares the three matrices, their shapes, assemble_matrix_rhs (matrix, rhs, ValueError for >1 component), ValueError cases and 1-5 explicit "
+               "steps exactly (rationals).")
+ASSUMPTIONS = [
+    "selection / boundary-row / maximum-principle theorems assume the decidable well-formedness predicate WF (signs +-1, at most one cell on each side of a "
+    "face); every grid built by porepy constructors / fracture meshing in the sample satisfies it (the oracle recomputes it from cell_faces.toarray())",
+    "conservation needs nonzero cell volumes, the maximum principle positive volumes, dt >= 0 and the CFL condition dt * outflow_i <= V_i",
+    "numbers are exact rationals in the model; generated data are small dyadic rationals so that the real matrices (entries 0, +-1) are exact",
+]
 
 F0 = Fraction(0)
+_CLS = {"conservation_checked": 0, "max_principle_noflow_checked": 0, "max_principle_inflow_checked": 0, "oracle_skipped_not_wf": 0}
 
 
 # ----------------------------------------------------------------------------- grids
@@ -491,6 +539,7 @@ def oracle(case):
     CF = np.asarray(g.cell_faces.toarray())
     fc = [[(int(c), int(CF[f, c])) for c in np.nonzero(CF[f])[0]] for f in range(nf)]
     if not _well_formed(fc) or any(len(l) == 0 for l in fc):
+        _CLS["oracle_skipped_not_wf"] += 1
         return None  # not a grid: outside the property (the correspondence still covers it)
     F = [Fraction(x) for x in case["flux"]]
     try:
@@ -572,7 +621,9 @@ def oracle(case):
     bv = [[Fraction(x) for x in row] for row in case["bv"]]
     c0 = [[Fraction(x) for x in row] for row in case["c"]]
     closed = all((interior[f]) or (is_neu[f] and all(bv[a][f] == 0 for a in range(k))) for f in range(nf))
+    anyflux = any(x != 0 for x in F)
     if closed:
+        _CLS["conservation_checked"] += anyflux
         for a in range(k):
             tot0 = sum(V[i] * c0[a][i] for i in range(nc))
             for n_, x in enumerate(xs):
@@ -584,6 +635,7 @@ def oracle(case):
     hyp = (valid_bc and all(x == 0 for x in divF) and dt >= 0 and all(V[i] > 0 and dt * out[i] <= V[i] for i in range(nc))
            and all(not is_neu[f] or (F[f] == 0 and all(bv[a][f] == 0 for a in range(k))) for f in range(nf)))
     if hyp:
+        _CLS["max_principle_noflow_checked" if all(F[f] == 0 for f in range(nf) if not interior[f]) else "max_principle_inflow_checked"] += anyflux
         inflow_dir = [f for f in range(nf) if not interior[f] and is_dir[f] and fc[f][0][1] * F[f] < 0]
         for a in range(k):
             vals = c0[a] + [bv[a][f] for f in inflow_dir]
@@ -595,12 +647,6 @@ def oracle(case):
                         return {"what": f"divergence-free flux under the CFL limit ({gk} grid, nf={nf}, nc={nc}, k={k}, no-flow={noflow}): cell {i} component {a} = {x[i * k + a]} after step {n_ + 1} leaves [{lo}, {hi}]",
                                 "key": "maximum-principle" + ("-noflow" if noflow else "-inflow")}
     return None
-
-
-def case_class(case):
-    """hypothesis classes the case satisfies (for the evidence distribution)"""
-    g = build_grid(case["grid"])
-    return case["scenario"]
 
 
 def nontrivial(case):
@@ -630,4 +676,5 @@ def stats(cases, impl_outs):
     return {"grid_kinds": dict(kinds), "scenarios": dict(scen), "bc_modes": dict(bcm), "components": dict(Counter(str(c["k"]) for c in cases)),
             "discretize_errors": errs, "faces_total": tot, "faces_zero_flux": zero,
             "robin_cases": sum(1 for c in cases if c["bc"] and c["bc"]["mode"] == "ctor" and "rob" in c["bc"]["cond"]),
-            "max_faces": max((len(c["flux"]) for c in cases), default=0)}
+            "max_faces": max((len(c["flux"]) for c in cases), default=0), "steps_total": sum(c["nsteps"] for c in cases),
+            "oracle_hypothesis_classes_with_nonzero_flux": dict(_CLS)}
